@@ -253,6 +253,7 @@ def run(ctx):
     ctx.require(not it, "T6-no-hash-iteration", nx.name, "HashSet:iter", "the seen-set is only queried and extended", "the traversal iterates over a hash container: output order depends on hash order")
 
     minimum(ctx, g)
+    not_truncated(ctx, g)
     code_content(ctx, g)
 
 
@@ -313,6 +314,35 @@ def minimum(ctx, g):
                 dif_ok = True
     ctx.require(dif_ok, "T3-compare-same-position", cc.name, "get(i) - get(i)", "codes are compared entry by entry at equal positions, candidate minus best",
                 "compare_codes does not subtract the best code's entry from the candidate's entry at the same position")
+
+
+def not_truncated(ctx, g):
+    """the lazily generated code is only cut where the caller asked (position i exists) or where the traversal is exhausted"""
+    ctx.clauses.append("the traversal code is never truncated: loops in get / get_code / get_map exit only on exhaustion or when the requested position exists (T3)")
+    for fn in ("get", "get_code", "get_map"):
+        b = ctx.body("dsyms::TraversalCode::<'a, T>::" + fn)
+        ctx.scan([b])
+        me = ("param", 1, b.debug.get(1, ""))
+        adv = ("call", "dsyms::TraversalCode::<'a, T>::advance", (me,))
+        lps = natural_loops(b)
+        ctx.floor("loops in TraversalCode::" + fn, len(lps), 1)
+        for h, blocks in lps:
+            bad = []
+            for (a, s), atoms in loop_exit_atoms(b, h, blocks, g):
+                ok = False
+                for at in atoms:
+                    if at == ("bool", adv, False) or at == ("rel", "Eq", adv, ("int", 0)):
+                        ok = True
+                    if fn == "get" and at[0] == "rel":
+                        i_ = ("param", 2, b.debug.get(2, ""))
+                        ln = ("call", "std::vec::Vec::<T, A>::len", (("field", me, "buffer"),))
+                        if implies(at, ("rel", "Lt", i_, ln)):
+                            ok = True
+                if not ok:
+                    bad.append("bb%d->bb%d on %s" % (a, s, "; ".join(show_atom(x)[:60] for x in atoms) or "unconditional"))
+            ctx.ob("T3-code-not-truncated", b.name, "loop exits", "ok" if not bad else "violation",
+                   "the loop is left only when advance() is exhausted" + (" or position i exists" if fn == "get" else "") if not bad else
+                   "the code generation loop can be left for another reason (%s): codes are compared on a truncated prefix, two inequivalent seeds can tie and the canonical form depends on the numbering" % bad[0])
 
 
 def code_content(ctx, g):
